@@ -63,8 +63,8 @@ Proof.
 Qed.
 
 (** a well-formed record shorter than 4 GiB is carried by the codec *)
-Lemma rec_wf_ok r : rec_wf r -> lenZ (enc_record r) < two32 -> rec_ok enc_record dec_record_slice r.
-Proof. intros W L. split; [apply dec_enc_record_slice, W|exact L]. Qed.
+Lemma rec_wf_ok r : rec_wf r -> lenZ (enc_record r) < two32 -> rec_ids_below r -> rec_ok enc_record dec_record_slice r.
+Proof. intros W L B. split; [apply dec_enc_record_slice, W|split; [exact L|exact B]]. Qed.
 
 (** * snapshots *)
 Lemma prop_rt kv rest : prop_wf kv -> dec_prop (enc_prop kv ++ rest) = Some (kv, rest).
